@@ -12,7 +12,7 @@ import (
 // ---- RFC 3986 §5.2 reference resolution (strict), written from the RFC, for the classifier only
 
 type parts struct {
-	scheme, authority, path, query, fragment string
+	scheme, authority, path, query, fragment       string
 	hasScheme, hasAuthority, hasQuery, hasFragment bool
 }
 
